@@ -220,6 +220,15 @@ def run(ctx):
         gkey, tkey, sub = ("gid", "tid", "CDS") if custom else ("gene_id", "transcript_id", "exon")
         idspec = dbside.IdSpec() if not custom else dbside.IdSpec("D", table={"gene": [("a", gkey)], "transcript": [("a", tkey)]})
         cfg = dbside.Cfg(idspec=idspec, disG=disG, disT=disT, tkey=tkey, gkey=gkey, sub=sub)
+        spaced = False
+        if len(recs) > 13 and i % 4 == 1:
+            spaced = True
+            # lines beyond the dialect-inspection window written with blanks on both sides of the semicolons
+            # (`gene_id "g" ; transcript_id "t" ;`): the same features, the same ids
+            for x in recs[12:]:
+                if r.random() < 0.6:
+                    x["sep"] = " ; "
+            res.count("lines_beyond_the_window_spaced_semicolons")
         lines = gen_db.gtf_lines(recs, gkey=gkey, tkey=tkey)
         if i % 6 == 3:
             # an earlier import of this process that used custom gtf_gene_key / gtf_transcript_key WITHOUT an id_spec of
@@ -246,7 +255,9 @@ def run(ctx):
             res.sample({"lines": lines, "config": cfg.describe()})
         # the same GTF records as Feature objects from a one-shot source (the dialect peek must hand every item on to
         # the importer): same oracle; the tables are compared with the model's import of the lines
-        if i % 2 == 0 or len(lines) > 11:
+        # (not for files that mix two spacings: Feature objects parsed one by one carry their own line's dialect, whereas
+        # the model of these forms re-reads the lines with ONE voted dialect - the stated single-dialect assumption)
+        if (i % 2 == 0 or len(lines) > 11) and not spaced:
             form = r.choice(FEATURE_FORMS)
             cl = r.choice([10, 10, 10, 0, 1, 3, max(len(lines) - 2, 0), len(lines) - 1, len(lines)])
             case2 = mk_case(lines, recs, cfg, form, cl)
